@@ -159,6 +159,9 @@ def run_history(cfg, ops, workdir, keep=False):
     Runner-level ops: `restart` (graceful shutdown + new process + preamble + cacheinfo)."""
     if os.path.exists(workdir):
         shutil.rmtree(workdir)
+    for side in (".tokens",):
+        if os.path.exists(workdir + side):
+            os.remove(workdir + side)
     clock = 1_000_000
     for o in ops:
         if o.startswith("clock "):
@@ -182,9 +185,10 @@ def run_history(cfg, ops, workdir, keep=False):
                 if not node.ready.startswith("ready"):
                     trace.append(f"restart\t{node.ready or 'died'}")
                     return trace
-                for pre in PREAMBLE:
-                    node.op(pre)
+                pre_results = [(pre, node.op(pre)) for pre in PREAMBLE]
                 trace.append("restart\t" + node.op("cacheinfo"))
+                for pre, r in pre_results:
+                    trace.append(f"{pre}\t{r}")
                 continue
             r = node.op(o)
             trace.append(f"{o}\t{r}")
@@ -197,10 +201,11 @@ def run_history(cfg, ops, workdir, keep=False):
             pass
         if not keep:
             shutil.rmtree(workdir, ignore_errors=True)
-            try:
-                os.remove(workdir + ".stderr")
-            except OSError:
-                pass
+            for side in (".stderr", ".tokens"):
+                try:
+                    os.remove(workdir + side)
+                except OSError:
+                    pass
     return trace
 
 
